@@ -18,6 +18,9 @@ record whose owner equals a question name byte-exactly and matches is present; a
 RESPONSE flag, unicast bit; None iff nothing matches). Universe U0 (exhaustive): 6 owner names that collide under label concatenation x {A, TXT, SRV} x {authoritative, \
 cached}; all stores of <= 3 (quick) / <= 4 (thorough) records x all queries of <= 2 questions over 6 names x {A,SRV,TXT,ANY} x {IN,ANY}. Universe U1 (random): histories \
 of add-authoritative/add-cached/remove/clear over colliding label alphabets, 9 record types, classes IN/CH, QTYPE incl. ANY/MAILB, each followed by queries. \
+Live family (sampled): 6 / 60 real SimpleMdnsResponder instances (sync and tokio alternately) hold generated records under names private to the process; 30 / 60 queries each go to the mDNS \
+group through real sockets; the reply datagram (unicast replies on the sending socket, multicast replies on a witness socket joined to the group) is parsed and judged by the same reply model, \
+including how it was delivered; an expected reply that does not come after 3 transmissions while the marker query is answered is a violation, otherwise inconclusive. \
 non-trivial = (store, query) with a non-empty store and at least one question; distinct = hash of (store, query)",
         assumptions: &["set comparison (reply order comes from hash maps)", "TTLs are not compared", "a record both registered and received stays authoritative (the model follows C20's statement); cached copies with the cache-flush bit are not generated here (expiry is C20's subject)"],
         exhaustive: true,
@@ -389,7 +392,156 @@ pub fn u1_case(ctx: &mut Ctx, idx: u64) {
     }
 }
 
+/// The same judgement on what the real responders put on the wire: a sync and a tokio SimpleMdnsResponder hold generated
+/// records (under names private to this process), queries go to the mDNS group through real sockets, unicast replies
+/// come back to the sending socket and multicast replies are picked up by a witness socket on the group.
+fn live(ctx: &mut Ctx) {
+    use simple_mdns::{async_discovery, sync_discovery};
+    use std::net::{SocketAddr, UdpSocket};
+    use std::time::{Duration, Instant};
+    let group: SocketAddr = "224.0.0.251:5353".parse().unwrap();
+    let Ok(sock) = UdpSocket::bind("0.0.0.0:0") else {
+        ctx.inconclusive.push("live responders: cannot bind a UDP socket".into());
+        return;
+    };
+    let _ = sock.set_read_timeout(Some(Duration::from_millis(15)));
+    let _ = sock.set_multicast_loop_v4(true);
+    let tap = super::c15::open_tap();
+    if tap.is_none() {
+        ctx.notes.push("live responders: no witness socket on the mDNS group; only queries that ask for unicast delivery are used".into());
+    }
+    let pid = std::process::id();
+    let rt = tokio::runtime::Builder::new_multi_thread().worker_threads(2).enable_all().build().unwrap();
+    let rounds = ctx.tier.pick(6u64, 60u64);
+    let mut qid: u16 = 0x3000;
+    // one exchange: send (up to `sends` times), return the first datagram carrying our id with the response bit
+    let exchange = |bytes: &[u8], id: u16, sends: u32, wait_each: Duration| -> Option<(Vec<u8>, bool)> {
+        let mut buf = vec![0u8; 65535];
+        for _ in 0..sends {
+            let _ = sock.send_to(bytes, group);
+            let deadline = Instant::now() + wait_each;
+            while Instant::now() < deadline {
+                if let Ok((n, _)) = sock.recv_from(&mut buf) {
+                    if n >= 12 && u16::from_be_bytes([buf[0], buf[1]]) == id && buf[2] & 0x80 != 0 {
+                        return Some((buf[..n].to_vec(), true));
+                    }
+                }
+                if let Some(t) = &tap {
+                    while let Ok((n, _)) = t.recv_from(&mut buf) {
+                        if n >= 12 && u16::from_be_bytes([buf[0], buf[1]]) == id && buf[2] & 0x80 != 0 {
+                            return Some((buf[..n].to_vec(), false));
+                        }
+                    }
+                }
+            }
+        }
+        None
+    };
+    for round in 0..rounds {
+        if ctx.time_up() {
+            break;
+        }
+        let tokio_side = round % 2 == 1;
+        let who = if tokio_side { "tokio SimpleMdnsResponder" } else { "sync SimpleMdnsResponder" };
+        let mut r = ctx.rng("live", round);
+        let suffix = format!("v{}r{}", pid, round).into_bytes();
+        let names: Vec<NameM> = (0..r.usize(3, 6)).map(|_| { let mut n = u1_name(&mut r); n.push(suffix.clone()); n }).collect();
+        let mut members: Vec<RecSem> = Vec::new();
+        for _ in 0..r.usize(4, 10) {
+            let rec = u1_record(&mut r, &names);
+            if !members.iter().any(|m| ident_of(m) == ident_of(&rec)) {
+                members.push(rec);
+            }
+        }
+        let marker = RecSem { name: vec![b"marker".to_vec(), suffix.clone()], rtype: 1, class: 1, flush: false, ttl: 10, rd: Rd::Fields(vec![F::Int(0x7F000001)]) };
+        members.push(marker.clone());
+        // the responder (kept alive for the round; its thread / task stays behind afterwards, holding names nobody asks for)
+        let started = monitor::guard(|| {
+            if tokio_side {
+                let _g = rt.enter();
+                let mut a = async_discovery::SimpleMdnsResponder::new(10);
+                for m in &members {
+                    rt.block_on(a.add_resource(bridge::lib_record(m).unwrap().into_owned()));
+                }
+                (None, Some(a))
+            } else {
+                let mut s = sync_discovery::SimpleMdnsResponder::new(10);
+                for m in &members {
+                    s.add_resource(bridge::lib_record(m).unwrap().into_owned());
+                }
+                (Some(s), None)
+            }
+        });
+        let _keep = match started {
+            Ok(x) => x,
+            Err(pn) => {
+                ctx.panic_violation("starting a responder", &pn, json!({"family": "live", "idx": round}));
+                return;
+            }
+        };
+        std::thread::sleep(Duration::from_millis(120));
+        let marker_q = vec![QSem { name: marker.name.clone(), qtype: 1, qclass: 1, unicast: true }];
+        qid = qid.wrapping_add(1);
+        let mq = query_packet(qid, &marker_q).build_bytes_vec().unwrap();
+        if exchange(&mq, qid, 8, Duration::from_millis(300)).is_none() {
+            ctx.inconclusive.push(format!("live responders: the {} of round {} did not answer its marker query (multicast unavailable?)", who, round));
+            ctx.count("live_rounds_skipped");
+            continue;
+        }
+        let model = ModelStore { recs: members.iter().map(|m| (ident_of(m), true)).collect() };
+        let history: Vec<String> = members.iter().map(|m| format!("registered {} type {} class {}", name_text(&m.name), m.rtype, m.class)).collect();
+        for _ in 0..ctx.tier.pick(30, 60) {
+            let nq = r.usize(1, 3);
+            let qs: Vec<QSem> = (0..nq).map(|_| {
+                let name = if r.chance(4, 5) { r.pick(&names).clone() } else { let mut n = u1_name(&mut r); n.push(suffix.clone()); n };
+                let name = match r.below(6) { 0 if name.len() > 2 => name[1..].to_vec(), 1 => { let mut n2 = name.clone(); n2.insert(0, b"a".to_vec()); n2 }, _ => name };
+                QSem { name, qtype: *r.pick(&[1u16, 28, 33, 16, 12, 7, 8, 9, 15, 255, 255, 253]), qclass: *r.pick(&[1u16, 1, 3, 255]), unicast: if tap.is_some() { r.chance(1, 2) } else { true } }
+            }).collect();
+            qid = qid.wrapping_add(1);
+            let must = model.recs.iter().any(|(i, _)| qs.iter().any(|q| i.name == q.name && type_match(q.qtype, i.rtype) && class_match(q.qclass, i.class)));
+            let may = model.recs.iter().any(|(i, _)| qs.iter().any(|q| under_ci(&i.name, &q.name) && type_match(q.qtype, i.rtype) && class_match(q.qclass, i.class)));
+            let bytes = query_packet(qid, &qs).build_bytes_vec().unwrap();
+            ctx.case(true, fnv(&bytes) ^ fnv(format!("{:?}", model.recs).as_bytes()));
+            ctx.count("live_queries_sent");
+            let case = || json!({"family": "live", "idx": round, "responder": who, "history": history, "query": hex(&bytes),
+                "questions": qs.iter().map(|q| format!("{} qtype {} qclass {} unicast {}", name_text(&q.name), q.qtype, q.qclass, q.unicast)).collect::<Vec<_>>()});
+            let got = if must { exchange(&bytes, qid, 3, Duration::from_millis(400)) } else { exchange(&bytes, qid, 1, Duration::from_millis(if may { 150 } else { 60 })) };
+            match got {
+                None if must => {
+                    // lost datagrams or a responder that does not answer this query? ask for the marker
+                    qid = qid.wrapping_add(1);
+                    let mq = query_packet(qid, &marker_q).build_bytes_vec().unwrap();
+                    if exchange(&mq, qid, 3, Duration::from_millis(400)).is_some() {
+                        ctx.violation("complete", "live-no-reply-although-records-match",
+                            format!("the {} sent no reply to a query (3 transmissions) for which registered records match exactly, while it answers its marker query", who), case());
+                    } else {
+                        ctx.inconclusive.push(format!("live responders: the {} stopped answering in round {}", who, round));
+                    }
+                    break;
+                }
+                None => ctx.count("live_no_reply_as_allowed"),
+                Some((reply, via_unicast)) => {
+                    ctx.count("live_replies_received");
+                    match monitor::guard(|| Packet::parse(&reply).map(|p| bridge::observe(&p)).map_err(|e| format!("{:?}", e))) {
+                        Ok(Ok(rp)) => judge(ctx, &model, &qs, qid, Some((rp, via_unicast)), &case),
+                        Ok(Err(e)) => ctx.violation("sound", "live-reply-unparseable", format!("the {} sent a reply that does not parse: {}", who, e), case()),
+                        Err(pn) => ctx.panic_violation("parsing a live reply", &pn, case()),
+                    }
+                }
+            }
+        }
+    }
+    for fp in monitor::take_foreign_panics() {
+        let loc = monitor::short_loc(&fp.location);
+        ctx.violation("sound", &format!("service-thread-panic@{}", loc), format!("a responder thread panicked during the live family: {}", fp.message), json!({"family": "live", "idx": 0}));
+    }
+    rt.shutdown_timeout(Duration::from_millis(200));
+}
+
 pub fn run(ctx: &mut Ctx) {
+    if ctx.shard == 0 && !ctx.slow_tool && !cfg!(miri) && ctx.family_active("live") && ctx.tape_case().is_none() && std::env::var_os("VERIF_C13_NO_LIVE").is_none() {
+        live(ctx);
+    }
     if let Some(tape) = ctx.tape_case() {
         // replay of a case found by the coverage-guided `model` target: the tape drives every generator decision
         super::model_case("C13", ctx, &tape);
